@@ -5,7 +5,7 @@ current bctpy source (Extracted.lean).  This file has no imports of its own: che
 into build/<run>/Combined.lean and runs `lean` on it.  A change of the library code changes the generated definitions; the
 theorems below are then re-checked against the new terms and the ones that no longer hold are reported by name.
 
-Every theorem that counts as an obligation is preceded by a line   --@ <property ids> : <bct functions>   (sections: C09, C10, C04, C14, C02)
+Every theorem that counts as an obligation is preceded by a line   --@ <property ids> : <bct functions>   (sections: C09, C10, C04, C14, C02, C18)
 No `sorry`, no `axiom` (scanned on every run; `#print axioms` must list only propext / Classical.choice / Quot.sound).
 
 Conventions: `cbrt` is the abstract cube root (hypotheses `cbrt x ^ 3 = x`, `cbrt 0 = 0`, `cbrt 1 = 1` are passed where needed),
@@ -687,4 +687,258 @@ theorem modularity_und_sign_neg_is_Qsign (canon : (Fin n → ℝ) → Fin n → 
   simp only [hs1, if_false, ite_self, zero_mul, sub_zero, zero_sub]
 
 end C02
+end Extracted
+
+/-! ## C18 — random-walk and spectral measures satisfy their defining equations, RELATIVE TO STATED CONTRACTS of the LAPACK / callee
+results, which are abstract functions here: `solve` (scipy.linalg.solve), `mfpt` (mean_first_passage_time), `expm` (scipy.linalg.expm),
+`eigvals`/`eigvecs` (scipy.linalg.eig), `argmax` (np.argmax).  Each contract is an explicit HYPOTHESIS of the theorem that uses it
+(an assumed contract on a dependency); it is stated for the one call the code makes, never as a universal property of the routine. -/
+namespace Extracted
+open BigOperators Finset
+
+section C18
+variable {n : ℕ}
+
+/-- the code's `deg`: column sums of A with zeros replaced by one -/
+noncomputable def pr_deg (A : Fin n → Fin n → ℝ) (j : Fin n) : ℝ := if (∑ i, A i j) = 0 then 1 else ∑ i, A i j
+/-- I − d · A · D⁻¹ -/
+noncomputable def pr_B (A : Fin n → Fin n → ℝ) (d : ℝ) (i j : Fin n) : ℝ :=
+  (if i = j then 1 else 0) - d * (A i j * (1 / pr_deg A j))
+
+/-- from the linear system to the fixed-point (PageRank) equation -/
+lemma pr_fixed_point (A : Fin n → Fin n → ℝ) (d : ℝ) (f r : Fin n → ℝ)
+    (h : ∀ i, ∑ j, pr_B A d i j * r j = (1 - d) * f i) (i : Fin n) :
+    r i = d * ∑ j, A i j * (1 / pr_deg A j) * r j + (1 - d) * f i := by
+  have e : ∑ j, pr_B A d i j * r j = r i - d * ∑ j, A i j * (1 / pr_deg A j) * r j := by
+    simp only [pr_B, sub_mul, Finset.sum_sub_distrib, ite_mul, one_mul, zero_mul, Finset.sum_ite_eq, Finset.mem_univ, if_true,
+      Finset.mul_sum]
+    congr 1
+    refine Finset.sum_congr rfl (fun j _ => ?_); ring
+  have := h i
+  rw [e] at this
+  linarith
+
+/-- column-stochasticity of A D⁻¹: a solution of the system sums to one -/
+lemma pr_solution_sum (A : Fin n → Fin n → ℝ) (d : ℝ) (f r : Fin n → ℝ)
+    (h : ∀ i, ∑ j, pr_B A d i j * r j = (1 - d) * f i)
+    (hcol : ∀ j, (∑ i, A i j) ≠ 0) (hf : ∑ i, f i = 1) (hd : d ≠ 1) : ∑ i, r i = 1 := by
+  have hcolB : ∀ j, ∑ i, pr_B A d i j = 1 - d := by
+    intro j
+    simp only [pr_B, Finset.sum_sub_distrib, Finset.sum_ite_eq', Finset.mem_univ, if_true, ← Finset.mul_sum, ← Finset.sum_mul,
+      pr_deg, if_neg (hcol j)]
+    rw [mul_one_div, div_self (hcol j), mul_one]
+  have hsum : ∑ i, ∑ j, pr_B A d i j * r j = (1 - d) * ∑ i, r i := by
+    rw [Finset.sum_comm, Finset.mul_sum]
+    refine Finset.sum_congr rfl (fun j _ => ?_)
+    rw [← Finset.sum_mul, hcolB j]
+  have hrhs : ∑ i, ∑ j, pr_B A d i j * r j = 1 - d := by
+    simp only [h, ← Finset.mul_sum, hf, mul_one]
+  have h1d : (1 - d) ≠ 0 := sub_ne_zero.mpr (Ne.symm hd)
+  have : (1 - d) * ∑ i, r i = (1 - d) * 1 := by rw [← hsum, hrhs, mul_one]
+  exact mul_left_cancel₀ h1d this
+
+/-! ### pagerank_centrality, falff = None (uniform f = 1/n) -/
+
+/-- the matrix handed to `solve` is I − d A D⁻¹ with D the code's `deg`; the right-hand side is (1 − d) · 1/n -/
+--@ C18 : pagerank_centrality
+theorem pagerank_centrality_uniform_system (A : Fin n → Fin n → ℝ) (d : ℝ) :
+    pagerank_centrality_uniform_call0_arg0 A d = pr_B A d ∧
+    pagerank_centrality_uniform_call0_arg1 A d = fun _ => (1 - d) * (1 / (n : ℝ)) := by
+  constructor
+  · funext i j
+    simp only [pagerank_centrality_uniform_call0_arg0, pr_B, pr_deg, mul_ite, mul_zero, Finset.sum_ite_eq', Finset.mem_univ, if_true] <;>
+      first | rfl | ring1 | (split_ifs <;> ring1)
+  · funext i
+    simp only [pagerank_centrality_uniform_call0_arg1] <;> first | rfl | ring1
+
+/-- (a) the returned vector sums to one (only `Σ r0 ≠ 0` is used, no contract of `solve`) -/
+--@ C18 : pagerank_centrality
+theorem pagerank_centrality_uniform_sums_to_one (solve : (Fin n → Fin n → ℝ) → (Fin n → ℝ) → Fin n → ℝ)
+    (A : Fin n → Fin n → ℝ) (d : ℝ)
+    (h0 : ∑ i, solve (pagerank_centrality_uniform_call0_arg0 A d) (pagerank_centrality_uniform_call0_arg1 A d) i ≠ 0) :
+    ∑ i, pagerank_centrality_uniform solve A d i = 1 := by
+  simp only [pagerank_centrality_uniform, ← Finset.sum_div]
+  exact div_self h0
+
+/-- (c) CONTRACT of scipy.linalg.solve for the one call made (`B · r0 = b`): then r0 sums to one when no column sum of A is zero,
+d ≠ 1 and n > 0 -/
+--@ C18 : pagerank_centrality
+theorem pagerank_centrality_uniform_solution_sums_to_one (solve : (Fin n → Fin n → ℝ) → (Fin n → ℝ) → Fin n → ℝ)
+    (A : Fin n → Fin n → ℝ) (d : ℝ)
+    (hsolve : ∀ i, ∑ j, pagerank_centrality_uniform_call0_arg0 A d i j
+        * solve (pagerank_centrality_uniform_call0_arg0 A d) (pagerank_centrality_uniform_call0_arg1 A d) j
+        = pagerank_centrality_uniform_call0_arg1 A d i)
+    (hcol : ∀ j, (∑ i, A i j) ≠ 0) (hd : d ≠ 1) (hn : 0 < n) :
+    ∑ i, solve (pagerank_centrality_uniform_call0_arg0 A d) (pagerank_centrality_uniform_call0_arg1 A d) i = 1 := by
+  obtain ⟨hB, hb⟩ := pagerank_centrality_uniform_system A d
+  rw [hB, hb] at hsolve ⊢
+  refine pr_solution_sum A d (fun _ => 1 / (n : ℝ)) _ hsolve hcol ?_ hd
+  have : (n : ℝ) ≠ 0 := Nat.cast_ne_zero.mpr hn.ne'
+  simp only [Finset.sum_const, Finset.card_univ, Fintype.card_fin, nsmul_eq_mul]
+  field_simp
+
+/-- (b) under the contract of `solve`, and if r0 sums to one, the returned r satisfies r = d A D⁻¹ r + (1 − d) f, f = 1/n -/
+--@ C18 : pagerank_centrality
+theorem pagerank_centrality_uniform_fixed_point (solve : (Fin n → Fin n → ℝ) → (Fin n → ℝ) → Fin n → ℝ)
+    (A : Fin n → Fin n → ℝ) (d : ℝ)
+    (hsolve : ∀ i, ∑ j, pagerank_centrality_uniform_call0_arg0 A d i j
+        * solve (pagerank_centrality_uniform_call0_arg0 A d) (pagerank_centrality_uniform_call0_arg1 A d) j
+        = pagerank_centrality_uniform_call0_arg1 A d i)
+    (h1 : ∑ i, solve (pagerank_centrality_uniform_call0_arg0 A d) (pagerank_centrality_uniform_call0_arg1 A d) i = 1) (i : Fin n) :
+    pagerank_centrality_uniform solve A d i
+      = d * ∑ j, A i j * (1 / pr_deg A j) * pagerank_centrality_uniform solve A d j + (1 - d) * (1 / (n : ℝ)) := by
+  obtain ⟨hB, hb⟩ := pagerank_centrality_uniform_system A d
+  have hr : ∀ k, pagerank_centrality_uniform solve A d k
+      = solve (pagerank_centrality_uniform_call0_arg0 A d) (pagerank_centrality_uniform_call0_arg1 A d) k := by
+    intro k; simp only [pagerank_centrality_uniform, h1, div_one]
+  simp only [hr]
+  rw [hB, hb] at hsolve ⊢
+  exact pr_fixed_point A d (fun _ => 1 / (n : ℝ)) _ hsolve i
+
+/-- summary: contract of `solve` + no zero column sum + d ≠ 1 + n > 0 ⇒ r sums to one and satisfies the PageRank equation -/
+--@ C18 : pagerank_centrality
+theorem pagerank_centrality_uniform_spec (solve : (Fin n → Fin n → ℝ) → (Fin n → ℝ) → Fin n → ℝ)
+    (A : Fin n → Fin n → ℝ) (d : ℝ)
+    (hsolve : ∀ i, ∑ j, pagerank_centrality_uniform_call0_arg0 A d i j
+        * solve (pagerank_centrality_uniform_call0_arg0 A d) (pagerank_centrality_uniform_call0_arg1 A d) j
+        = pagerank_centrality_uniform_call0_arg1 A d i)
+    (hcol : ∀ j, (∑ i, A i j) ≠ 0) (hd : d ≠ 1) (hn : 0 < n) :
+    ∑ i, pagerank_centrality_uniform solve A d i = 1 ∧
+    ∀ i, pagerank_centrality_uniform solve A d i
+      = d * ∑ j, A i j * (1 / pr_deg A j) * pagerank_centrality_uniform solve A d j + (1 - d) * (1 / (n : ℝ)) := by
+  have h1 := pagerank_centrality_uniform_solution_sums_to_one solve A d hsolve hcol hd hn
+  exact ⟨pagerank_centrality_uniform_sums_to_one solve A d (by rw [h1]; exact one_ne_zero),
+    pagerank_centrality_uniform_fixed_point solve A d hsolve h1⟩
+/-! ### pagerank_centrality with a given falff (f = falff / Σ falff) -/
+
+/-- the matrix handed to `solve` is I − d A D⁻¹ with D the code's `deg`; the right-hand side is (1 − d) · falff / Σ falff -/
+--@ C18 : pagerank_centrality
+theorem pagerank_centrality_falff_system (A : Fin n → Fin n → ℝ) (d : ℝ) (falff : Fin n → ℝ) :
+    pagerank_centrality_falff_call0_arg0 A d falff = pr_B A d ∧
+    pagerank_centrality_falff_call0_arg1 A d falff = fun i => (1 - d) * (falff i / ∑ k, falff k) := by
+  constructor
+  · funext i j
+    simp only [pagerank_centrality_falff_call0_arg0, pr_B, pr_deg, mul_ite, mul_zero, Finset.sum_ite_eq', Finset.mem_univ, if_true] <;>
+      first | rfl | ring1 | (split_ifs <;> ring1)
+  · funext i
+    simp only [pagerank_centrality_falff_call0_arg1] <;> first | rfl | ring1
+
+/-- (a) the returned vector sums to one (only `Σ r0 ≠ 0` is used, no contract of `solve`) -/
+--@ C18 : pagerank_centrality
+theorem pagerank_centrality_falff_sums_to_one (solve : (Fin n → Fin n → ℝ) → (Fin n → ℝ) → Fin n → ℝ)
+    (A : Fin n → Fin n → ℝ) (d : ℝ) (falff : Fin n → ℝ)
+    (h0 : ∑ i, solve (pagerank_centrality_falff_call0_arg0 A d falff) (pagerank_centrality_falff_call0_arg1 A d falff) i ≠ 0) :
+    ∑ i, pagerank_centrality_falff solve A d falff i = 1 := by
+  simp only [pagerank_centrality_falff, ← Finset.sum_div]
+  exact div_self h0
+
+/-- (c) CONTRACT of scipy.linalg.solve for the one call made (`B · r0 = b`): then r0 sums to one when no column sum of A is zero,
+d ≠ 1 and Σ falff ≠ 0 -/
+--@ C18 : pagerank_centrality
+theorem pagerank_centrality_falff_solution_sums_to_one (solve : (Fin n → Fin n → ℝ) → (Fin n → ℝ) → Fin n → ℝ)
+    (A : Fin n → Fin n → ℝ) (d : ℝ) (falff : Fin n → ℝ)
+    (hsolve : ∀ i, ∑ j, pagerank_centrality_falff_call0_arg0 A d falff i j
+        * solve (pagerank_centrality_falff_call0_arg0 A d falff) (pagerank_centrality_falff_call0_arg1 A d falff) j
+        = pagerank_centrality_falff_call0_arg1 A d falff i)
+    (hcol : ∀ j, (∑ i, A i j) ≠ 0) (hd : d ≠ 1) (hfal : (∑ k, falff k) ≠ 0) :
+    ∑ i, solve (pagerank_centrality_falff_call0_arg0 A d falff) (pagerank_centrality_falff_call0_arg1 A d falff) i = 1 := by
+  obtain ⟨hB, hb⟩ := pagerank_centrality_falff_system A d falff
+  rw [hB, hb] at hsolve ⊢
+  refine pr_solution_sum A d (fun i => falff i / ∑ k, falff k) _ hsolve hcol ?_ hd
+  rw [← Finset.sum_div, div_self hfal]
+
+/-- (b) under the contract of `solve`, and if r0 sums to one, the returned r satisfies r = d A D⁻¹ r + (1 − d) f, f = falff / Σ falff -/
+--@ C18 : pagerank_centrality
+theorem pagerank_centrality_falff_fixed_point (solve : (Fin n → Fin n → ℝ) → (Fin n → ℝ) → Fin n → ℝ)
+    (A : Fin n → Fin n → ℝ) (d : ℝ) (falff : Fin n → ℝ)
+    (hsolve : ∀ i, ∑ j, pagerank_centrality_falff_call0_arg0 A d falff i j
+        * solve (pagerank_centrality_falff_call0_arg0 A d falff) (pagerank_centrality_falff_call0_arg1 A d falff) j
+        = pagerank_centrality_falff_call0_arg1 A d falff i)
+    (h1 : ∑ i, solve (pagerank_centrality_falff_call0_arg0 A d falff) (pagerank_centrality_falff_call0_arg1 A d falff) i = 1) (i : Fin n) :
+    pagerank_centrality_falff solve A d falff i
+      = d * ∑ j, A i j * (1 / pr_deg A j) * pagerank_centrality_falff solve A d falff j + (1 - d) * (falff i / ∑ k, falff k) := by
+  obtain ⟨hB, hb⟩ := pagerank_centrality_falff_system A d falff
+  have hr : ∀ k, pagerank_centrality_falff solve A d falff k
+      = solve (pagerank_centrality_falff_call0_arg0 A d falff) (pagerank_centrality_falff_call0_arg1 A d falff) k := by
+    intro k; simp only [pagerank_centrality_falff, h1, div_one]
+  simp only [hr]
+  rw [hB, hb] at hsolve ⊢
+  exact pr_fixed_point A d (fun i => falff i / ∑ k, falff k) _ hsolve i
+
+/-- summary: contract of `solve` + no zero column sum + d ≠ 1 + Σ falff ≠ 0 ⇒ r sums to one and satisfies the PageRank equation -/
+--@ C18 : pagerank_centrality
+theorem pagerank_centrality_falff_spec (solve : (Fin n → Fin n → ℝ) → (Fin n → ℝ) → Fin n → ℝ)
+    (A : Fin n → Fin n → ℝ) (d : ℝ) (falff : Fin n → ℝ)
+    (hsolve : ∀ i, ∑ j, pagerank_centrality_falff_call0_arg0 A d falff i j
+        * solve (pagerank_centrality_falff_call0_arg0 A d falff) (pagerank_centrality_falff_call0_arg1 A d falff) j
+        = pagerank_centrality_falff_call0_arg1 A d falff i)
+    (hcol : ∀ j, (∑ i, A i j) ≠ 0) (hd : d ≠ 1) (hfal : (∑ k, falff k) ≠ 0) :
+    ∑ i, pagerank_centrality_falff solve A d falff i = 1 ∧
+    ∀ i, pagerank_centrality_falff solve A d falff i
+      = d * ∑ j, A i j * (1 / pr_deg A j) * pagerank_centrality_falff solve A d falff j + (1 - d) * (falff i / ∑ k, falff k) := by
+  have h1 := pagerank_centrality_falff_solution_sums_to_one solve A d falff hsolve hcol hd hfal
+  exact ⟨pagerank_centrality_falff_sums_to_one solve A d falff (by rw [h1]; exact one_ne_zero),
+    pagerank_centrality_falff_fixed_point solve A d falff hsolve h1⟩
+/-! ### diffusion_efficiency: `mfpt` = mean_first_passage_time(adj) is abstract (callee; its own defining equation is bounded-only) -/
+
+--@ C18 : diffusion_efficiency
+theorem diffusion_efficiency_def (mfpt : (Fin n → Fin n → ℝ) → Fin n → Fin n → ℝ) (adj : Fin n → Fin n → ℝ) :
+    diffusion_efficiency_call0_arg0 adj = adj ∧
+    (∀ i j, diffusion_efficiency_ret1 mfpt adj i j = if i = j then 0 else 1 / mfpt adj i j) ∧
+    diffusion_efficiency_ret0 mfpt adj
+      = (∑ i, ∑ j, (if i ≠ j then 1 / mfpt adj i j else 0)) / ((n : ℝ) ^ 2 - (n : ℝ)) := by
+  have h0 : diffusion_efficiency_call0_arg0 adj = adj := by
+    funext i j; simp only [diffusion_efficiency_call0_arg0]
+  refine ⟨h0, ?_, ?_⟩
+  · intro i j; simp only [diffusion_efficiency_ret1, h0]
+  · simp only [diffusion_efficiency_ret0, h0, ne_eq, ite_not] <;> first | rfl | (congr 1 <;> first | rfl | ring1)
+
+/-- the global value is the mean of the returned matrix over the ordered pairs i ≠ j -/
+--@ C18 : diffusion_efficiency
+theorem diffusion_efficiency_mean (mfpt : (Fin n → Fin n → ℝ) → Fin n → Fin n → ℝ) (adj : Fin n → Fin n → ℝ) :
+    diffusion_efficiency_ret0 mfpt adj
+      = (∑ i, ∑ j, diffusion_efficiency_ret1 mfpt adj i j) / ((n : ℝ) ^ 2 - (n : ℝ)) := by
+  simp only [diffusion_efficiency_ret0, diffusion_efficiency_ret1] <;> first | rfl | (congr 1 <;> first | rfl | ring1)
+
+/-! ### subgraph_centrality: diagonal of the matrix exponential (`expm` abstract) -/
+
+--@ C18 : subgraph_centrality
+theorem subgraph_centrality_is_diag_expm (expm : (Fin n → Fin n → ℝ) → Fin n → Fin n → ℝ) (CIJ : Fin n → Fin n → ℝ) :
+    subgraph_centrality_call0_arg0 CIJ = CIJ ∧ subgraph_centrality expm CIJ = fun i => expm CIJ i i := by
+  have h0 : subgraph_centrality_call0_arg0 CIJ = CIJ := by
+    funext i j; simp only [subgraph_centrality_call0_arg0]
+  exact ⟨h0, by funext i; simp only [subgraph_centrality, h0]⟩
+
+/-! ### eigenvector_centrality_und: |column argmax(vals) of vecs| (`eigvals`, `eigvecs`, `argmax` abstract; real parts only) -/
+
+--@ C18 : eigenvector_centrality_und
+theorem eigenvector_centrality_und_is_abs_argmax_column
+    (eigvals : (Fin n → Fin n → ℝ) → Fin n → ℝ) (eigvecs : (Fin n → Fin n → ℝ) → Fin n → Fin n → ℝ)
+    (argmax : (Fin n → ℝ) → Fin n) (CIJ : Fin n → Fin n → ℝ) :
+    eigenvector_centrality_und eigvals eigvecs argmax CIJ = fun k => |eigvecs CIJ k (argmax (eigvals CIJ))| := by
+  have h0 : eigenvector_centrality_und_call0_arg0 CIJ = CIJ := by
+    funext i j; simp only [eigenvector_centrality_und_call0_arg0]
+  have h1 : eigenvector_centrality_und_call1_arg0 eigvals CIJ = eigvals CIJ := by
+    funext i; simp only [eigenvector_centrality_und_call1_arg0, h0]
+  funext k; simp only [eigenvector_centrality_und, h0, h1]
+
+/-- CONTRACTS of scipy.linalg.eig (every column of vecs is an eigenvector for the matching value) and of np.argmax (index of a
+largest entry): the vector whose entrywise absolute value is returned is an eigenvector of CIJ for a largest eigenvalue.
+(Non-negativity of the returned vector is immediate; that |v| is itself an eigenvector / unit norm is Perron–Frobenius and
+LAPACK normalisation: bounded-only.) -/
+--@ C18 : eigenvector_centrality_und
+theorem eigenvector_centrality_und_spec
+    (eigvals : (Fin n → Fin n → ℝ) → Fin n → ℝ) (eigvecs : (Fin n → Fin n → ℝ) → Fin n → Fin n → ℝ)
+    (argmax : (Fin n → ℝ) → Fin n) (CIJ : Fin n → Fin n → ℝ)
+    (heig : ∀ k i, ∑ j, CIJ i j * eigvecs CIJ j k = eigvals CIJ k * eigvecs CIJ i k)
+    (hargmax : ∀ k, eigvals CIJ k ≤ eigvals CIJ (argmax (eigvals CIJ))) :
+    ∃ (v : Fin n → ℝ) (lam : ℝ), (∀ k, eigvals CIJ k ≤ lam) ∧ (∀ i, ∑ j, CIJ i j * v j = lam * v i) ∧
+      (∀ i, eigenvector_centrality_und eigvals eigvecs argmax CIJ i = |v i|) ∧
+      (∀ i, 0 ≤ eigenvector_centrality_und eigvals eigvecs argmax CIJ i) := by
+  refine ⟨fun i => eigvecs CIJ i (argmax (eigvals CIJ)), eigvals CIJ (argmax (eigvals CIJ)), hargmax, ?_, ?_, ?_⟩
+  · intro i; exact heig _ i
+  · intro i; rw [eigenvector_centrality_und_is_abs_argmax_column]
+  · intro i; rw [eigenvector_centrality_und_is_abs_argmax_column]; exact abs_nonneg _
+
+end C18
 end Extracted
